@@ -156,6 +156,10 @@ class Q:
                 join_texts.append("NATURAL %s %s" % (self.pick(["JOIN", "LEFT JOIN"]), jt))      # no condition; the left table carries no alias
                 continue
             c, cc = self.cond_simple(quals)
+            if self.depth > 0 and r.random() < 0.15:
+                a2, ca2 = self.col(quals)
+                c += " AND %s IN (%s)" % (a2, self.sub([join_tables_all, self.tables_join]))     # read by the JOIN rule: reported with the JOIN tables
+                cc = cc + ca2
             join_texts.append("%s %s ON %s" % (self.pick(["JOIN", "LEFT JOIN", "INNER JOIN", "LEFT OUTER JOIN"]), jt, c))
             join_cols += cc
         # select list
@@ -206,6 +210,11 @@ class Q:
                     t, cc = self.ref_item(quals)
                 os_.append(t + self.pick(["", " DESC", " ASC"]))
                 oc += cc
+            al_ = [a for a, _ in self.items if a]
+            if al_ and r.random() < 0.3:
+                a_, q_ = self.pick(al_), self.pick(quals)
+                os_.append("%s.%s" % (q_, a_))                   # qualified: a column of that table, whatever the select list calls its items
+                oc.append((q_, a_, None))
             text += " ORDER BY " + ", ".join(os_)
             self.cols["order_by"] = oc
         if r.random() < 0.2:
